@@ -148,6 +148,15 @@ def work(job):
         if kind == "corpusmut":
             files = {rel: (trees.mutate(d, rnd) if rnd.random() < 0.6 else d) for rel, d in files.items()}
         structured = (i % 2 == 1)
+    if kind in ("gen", "genmut", "corpus", "corpusmut", "sameline", "crafted") and files and rnd.random() < 0.3:
+        # byte-identical copies of source files elsewhere in the tree (a vendored helper, a module stub copied to a sibling crate):
+        # each copy is a file of its own, with its own locations and its own share of the total
+        for rel in rnd.sample(sorted(files), min(len(files), rnd.choice([1, 1, 2]))):
+            d_, b_ = os.path.split(rel)
+            for cp in rnd.sample([os.path.join(d_, "copy_of_" + b_), os.path.join("src/vendor/helper", b_), os.path.join(d_, "zz_" + b_)], rnd.choice([1, 2])):
+                files.setdefault(cp, files[rel])
+        truth_missing = None
+        res["counters"]["trees_with_byte_identical_files"] = 1
     with core.Box(tag="c05") as box:
         # the same configuration written redundantly (an extension or a macro listed twice) means the same
         red = rnd.random() < 0.25
